@@ -6,8 +6,8 @@ import (
 	"strings"
 	"time"
 
-	"github.com/fufuok/cache/internal/xsync"
 	vtime "github.com/fufuok/cache/internal/vshim/time"
+	"github.com/fufuok/cache/internal/xsync"
 )
 
 // ---- C12: Cache vs CacheOf[string,interface{}] and Map vs MapOf[string,interface{}] are
@@ -76,7 +76,7 @@ func sortPhys(m map[int]PhysEntry) []string {
 	return s
 }
 
-func (t *twinCacheInst) Key() string  { return relKey(&t.m) + fmt.Sprint(t.a.HasEvictedCallback()) }
+func (t *twinCacheInst) Key() string   { return relKey(&t.m) + fmt.Sprint(t.a.HasEvictedCallback()) }
 func (t *twinCacheInst) Log() []string { return append([]string{}, t.log...) }
 func (t *twinCacheInst) Close() {
 	t.la.c, t.lb.c = nil, nil
